@@ -1536,6 +1536,10 @@ func makeTaskForMesosResources(
 		Debug("creating Mesos task")
 	resourcesRequest.Add(executorResources...)
 
+	// What this task requests (CPU, memory, static ports, its executor's resources) is no longer available to
+	// the next task matched against the same offer. The dynamic ports and the control port are already gone.
+	remainingResourcesInOffer.Subtract(resourcesRequest...)
+
 	newTaskId := taskPtr.GetTaskId()
 
 	executor := state.CopyExecutorInfo()
